@@ -16,7 +16,7 @@ RULE = ("random RDF 1.1 graphs and datasets (default graph, IRI and blank-node g
         "need (and, in ~15% of the cases, prefix/datatype tables of 1-3 entries that a statement may overflow: a refusal "
         "with JellyConformanceError is then accepted, written bytes must still round-trip; in ~15% the caller's ONE options object "
         "was first used for a serialization that aborted on a non-RDF term, and the retry is judged), frame sizes, delimited and (flat) non-delimited; read back with Graph.parse / Dataset.parse(format='jelly'), "
-        "parse_jelly_flat, parse_jelly_grouped (union) and parse_jelly_to_graph, and again while another Jelly file (the previous "
+        "parse_jelly_flat, parse_jelly_grouped (union) and parse_jelly_to_graph, from a seekable file positioned behind a container header and through a real OS pipe, and again while another Jelly file (the previous "
         "case's bytes) is being parsed in the same process (two flat parsers in lockstep; Dataset.parse inside a loop over the "
         "grouped parser's frames). Oracle: field-by-field equality (never "
         "rdflib ==) of the SETS of triples / quads incl. graph names. A second pass runs with rdflib.NORMALIZE_LITERALS = "
@@ -155,6 +155,33 @@ def read_back(data: bytes, physical: int, reader: str) -> list:
             return T.rdflib_store_statements(store)
         finally:
             os.unlink(path)
+    if reader in ("flat@pipe", "graph.parse@pipe"):
+        # the bytes arrive through a real OS pipe (a subprocess's stdout, a FIFO): buffered, non-seekable
+        import os
+        import threading
+        r, w = os.pipe()
+
+        def feed():
+            try:
+                with os.fdopen(w, "wb") as out:
+                    out.write(data)
+            except OSError:
+                pass
+        t = threading.Thread(target=feed, daemon=True)
+        t.start()
+        with os.fdopen(r, "rb") as fh:
+            try:
+                if reader == "flat@pipe":
+                    return [e[1] for e in pj.parse("rdflib", "flat", fh) if e[0] == "stmt"]
+                store = rdflib.Graph(bind_namespaces="none") if physical == 1 else rdflib.Dataset(default_union=False)
+                store.parse(source=fh, format="jelly")
+                return T.rdflib_store_statements(store)
+            finally:
+                try:
+                    fh.read()          # let the feeder finish whatever happened
+                except Exception:  # noqa: BLE001
+                    pass
+                t.join(5)
     if reader == "flat":
         return [e[1] for e in pj.parse("rdflib", "flat", data) if e[0] == "stmt"]
     if reader == "grouped":
@@ -210,7 +237,8 @@ def roundtrip(cfg: dict, stmts: list, normalize: bool = True, other: bytes | Non
                 return {"clause": "refused-undersized", "summary": "refused"}, None     # not a violation (see run_shard)
             return {"clause": "serializer-raised", "summary": f"{type(e).__name__}: {e}"}, None
         want = {T.norm_stmt(s) for s in stmts}
-        for reader in ("graph.parse", "graph.parse-path", "flat", "grouped", "to_graph", "flat@offset", "graph.parse@offset"):
+        for reader in ("graph.parse", "graph.parse-path", "flat", "grouped", "to_graph", "flat@offset", "graph.parse@offset",
+                       "flat@pipe", "graph.parse@pipe"):
             try:
                 got = {T.norm_stmt(s) for s in read_back(data, cfg["physical"], reader)}
             except Exception as e:  # noqa: BLE001
@@ -314,7 +342,7 @@ def run_shard(ctx):
             ctx.case((cfg, stmts), False)
             continue
         if w is not None:
-            small = workloads.shrink_list(stmts, lambda s: (roundtrip(cfg, s, normalize, other)[0] or {}).get("clause") == w["clause"], 80)
+            small = workloads.shrink_list(stmts, lambda s: [(roundtrip(cfg, s, normalize, other)[0] or {}).get(k) for k in ("clause", "reader")] == [w["clause"], w.get("reader")], 80)
             w2 = roundtrip(cfg, small, normalize, other)[0] or w
             w2.update({"cfg": cfg, "stmts": T.to_json(small), "normalize": normalize})
             ctx.violation(w2)
